@@ -195,6 +195,13 @@ func (s *SoftwrapScanner) Scan(ctx vxfw.DrawContext) bool {
 	for {
 		seg, rest, br, state := uniseg.FirstLineSegment(s.rest, s.state)
 
+		// A hard line break always ends the segment. We look for it
+		// ourselves: the segmenter can run across one (it never breaks
+		// before a hyphen that is followed by a digit)
+		if n := hardBreak(seg); n < len(seg) {
+			seg, rest, br, state = seg[:n], s.rest[n:], true, -1
+		}
+
 		// trim trailing whitespace to get our word
 		word := bytes.TrimRightFunc(seg, unicode.IsSpace)
 		// trailing space
@@ -276,6 +283,23 @@ func (s *SoftwrapScanner) Scan(ctx vxfw.DrawContext) bool {
 		s.token = append(s.token, trSpace...)
 		w += spaceLen
 	}
+}
+
+// hardBreak returns the length of the part of seg that ends with the first line
+// terminator in seg (CR LF is one terminator), or the length of seg if there is
+// none
+func hardBreak(seg []byte) int {
+	for i := 0; i < len(seg); {
+		r, l := utf8.DecodeRune(seg[i:])
+		i += l
+		if r == '\r' && i < len(seg) && seg[i] == '\n' {
+			i += 1
+		}
+		if uniseg.HasTrailingLineBreak(seg[:i]) {
+			return i
+		}
+	}
+	return len(seg)
 }
 
 // splitLongWord returns how many graphemes of a word that is wider than the
